@@ -24,6 +24,13 @@ Theorem C16_beep_default_nonpositive : forall pin neg tbl st on off times,
 Proof. exact beep_default_nonpositive. Qed.
 Print Assumptions C16_beep_default_nonpositive.
 
+(* whole histories: a sequence of calls none of which has a positive frequency (a beep without argument
+   repeating a last/default frequency <= 0) never starts a tone - and so never changes that last frequency *)
+Theorem C16_nonpositive_sequences : forall pin neg tbl ops st,
+  forallb (nonpositive_in (get_last_frequency st)) ops = true -> tones (snd (run pin neg tbl st ops)) = [].
+Proof. exact nonpositive_sequences. Qed.
+Print Assumptions C16_nonpositive_sequences.
+
 (* in every call sequence whatsoever, each tone() the firmware issues has the rounded value of a
    strictly positive frequency, and every event is on the buzzer's own pin *)
 Theorem C16_every_tone_positive : forall pin neg tbl st ops,
@@ -199,6 +206,30 @@ Theorem C16_last_frequency_sweep : forall pin neg tbl st s e d steps,
 Proof. exact last_frequency_sweep. Qed.
 Print Assumptions C16_last_frequency_sweep.
 
+(* ---- width of the tone() argument.  The model has no machine integers; this states the guard inside
+   which that is harmless for the frequency: if default_frequency, every frequency argument and every
+   note of the table are <= M then every tone() argument lies in [0, round M] - in any call sequence *)
+Theorem C16_tone_value_bounded : forall pin neg tbl M default ops,
+  (0 <= M)%Q -> table_le M tbl = true -> qle default M = true -> forallb (freq_le M) ops = true ->
+  Forall (tone_le (tone_of M)) (snd (run pin neg tbl (init default) ops)).
+Proof. exact tone_value_bounded. Qed.
+Print Assumptions C16_tone_value_bounded.
+
+(* on the generated table: frequencies <= 65535 never overflow the 16-bit unsigned int of an AVR *)
+Theorem C16_tone_fits_16_bits : forall pin neg default ops,
+  qle default (Qmake 65535 1) = true -> forallb (freq_le (Qmake 65535 1)) ops = true ->
+  Forall (fun e => match e with Tone _ t => 0 <= t < 2 ^ 16 | _ => True end)
+         (snd (run pin neg emitter_melodies (init default) ops)).
+Proof. exact tone_fits_16_bits. Qed.
+Print Assumptions C16_tone_fits_16_bits.
+
+Theorem C16_tone_fits_16_bits_guard_needed :
+  exists pin neg default ops,
+    Exists (fun e => match e with Tone _ t => 2 ^ 16 <= t | _ => False end)
+           (snd (run pin neg emitter_melodies (init default) ops)).
+Proof. exact tone_fits_16_bits_guard_needed. Qed.
+Print Assumptions C16_tone_fits_16_bits_guard_needed.
+
 (* ---- non-vacuity *)
 Definition q (n : Z) : Q := Qmake n 1.
 
@@ -249,3 +280,12 @@ Example C16_nonvacuous_batch2 :
   last_after emitter_melodies (init (q 440)) (Beep (Some (q 600)) (q 1) (q 1) (q 0)) = q 440.
 Proof. vm_compute. repeat split. Qed.
 Print Assumptions C16_nonvacuous_batch2.
+
+Example C16_nonvacuous_bounded :
+  freq_le (q 65535) (Sweep (q 440) (q 65535) (q 50) (q 5)) = true /\
+  freq_le (q 65535) (PlayTone (q 65536) None) = false /\
+  table_le (q 65535) emitter_melodies = true /\ table_le (q 500) emitter_melodies = false /\
+  tones (snd (dstep 8 neg_literal emitter_melodies (init (q 440)) (Sweep (q 440) (q 65535) (q 50) (q 3))))
+    = [440; 32988; 65535].
+Proof. vm_compute. repeat split. Qed.
+Print Assumptions C16_nonvacuous_bounded.
